@@ -41,6 +41,8 @@ class SeededScheduler:
         self.executed = 0
         self.reordered = 0
         self.graphs = 0
+        self.graphs_reordered = 0
+        self.order_sigs = []
 
     def __call__(self, dsk, keys, **kwargs):
         import dask.local as dl
@@ -49,6 +51,7 @@ class SeededScheduler:
         pending = []
         rng = random.Random(f'{self.order_seed}/{self.graphs}')
         sched = self
+        choices = []
 
         def submit(fn, *args, **kw):
             f = _FakeFuture(fn, args, kw)
@@ -57,6 +60,7 @@ class SeededScheduler:
 
         def queue_get(q):
             i = rng.randrange(len(pending))
+            choices.append(i)
             if i != 0:
                 sched.reordered += 1
             f = pending.pop(i)
@@ -84,6 +88,9 @@ class SeededScheduler:
             return dl.get_async(submit, self.n_workers, dsk, keys, chunksize=1, **kwargs)
         finally:
             dl.queue_get = real_queue_get
+            if any(choices):
+                self.graphs_reordered += 1
+            self.order_sigs.append(hash(tuple(choices)) & 0xffffff)
 
 
 def install(ctl, order_seed, n_workers):
